@@ -3,5 +3,5 @@ GROUP = {
     "stub_sets": [],
     "kani_args": ["-Z", "stubbing"],
     # modules of the harness crate whose items the generated playback tests need in scope
-    "modules": ["c15_ts", "c15_path"],
+    "modules": ["c15_ts", "c15_path", "c16_tpl", "rec", "c01_emit", "c02_props"],
 }
